@@ -412,7 +412,16 @@ def _run_history(case, ctx):
                 by_obj = r.random() < 0.5
                 rec.update(name=name, by_object=by_obj)
                 expected = model.item_delete("materials", name, "material")
+                reg_before = [dict(m_.properties) for m_ in pygaps.MATERIAL_LIST if m_.name == name]
                 out = _call(S.material_delete_db, pygaps.Material(name) if by_obj else name, db_path=db, verbose=False)
+                if out[0] != "ok":
+                    # a refused deletion changes nothing - in the file (judged below) nor in what the session resolves the name to
+                    reg_after = [dict(m_.properties) for m_ in pygaps.MATERIAL_LIST if m_.name == name]
+                    ctx.case(["mat-delete-refused-session", name, len(reg_before)])
+                    ctx.count("session_registry", "material-delete-refused/checked")
+                    if reg_after != reg_before:
+                        ctx.violation("mat_del/refused/session-registry-changed", "a refused deletion removed (or changed) the material the session resolves the name to", name=name, before=reg_before, after=reg_after,
+                                      exc=out[1])
             elif op == "iso_to":
                 spec = r.choice(iso_specs)
                 am, aa = r.random() < 0.7, r.random() < 0.7
